@@ -1,0 +1,72 @@
+#ifndef AMGCL_DETAIL_VERIF_HPP
+#define AMGCL_DETAIL_VERIF_HPP
+
+/*
+ * Verification hooks. This header is only included when AMGCL_VERIF is
+ * defined; without the define none of the hooks below exist in the build.
+ *
+ * A test harness may install a sink to observe (a) every backend primitive
+ * after it has returned, with the identities of its operands, and (b) named
+ * events emitted at linearisation points of stateful code. With no sink
+ * installed the hooks cost one pointer test.
+ */
+
+#include <cstddef>
+
+namespace amgcl {
+namespace verif {
+
+// Friend of the classes whose private state a verification harness inspects
+// (read-only). Defined by the harness, never by the library.
+struct access;
+
+struct sink {
+    // A backend primitive has returned. Operands are identified by the
+    // address of their first element (vectors) or of the object (matrices);
+    // z0..z2 tell whether the scaling coefficients were exactly zero.
+    virtual void op(const char *name,
+            const void *a0, const void *a1, const void *a2, const void *a3,
+            int z0, int z1, int z2) = 0;
+
+    // A named event of a stateful component.
+    virtual void event(const char *name, const void *obj,
+            long a, long b, long c, long d) = 0;
+
+    virtual ~sink() {}
+};
+
+inline sink*& current() {
+    static sink *s = 0;
+    return s;
+}
+
+template <class V>
+inline auto id_impl(const V &v, int) -> decltype(static_cast<const void*>(&v[0])) {
+    return v.size() ? static_cast<const void*>(&v[0]) : static_cast<const void*>(&v);
+}
+
+template <class V>
+inline const void* id_impl(const V &v, long) {
+    return static_cast<const void*>(&v);
+}
+
+// Identity of a vector-like operand.
+template <class V>
+inline const void* id(const V &v) { return id_impl(v, 0); }
+
+} // namespace verif
+} // namespace amgcl
+
+#define AMGCL_VERIF_OP(name, a0, a1, a2, a3, z0, z1, z2)                      \
+    do {                                                                       \
+        if (amgcl::verif::current())                                           \
+            amgcl::verif::current()->op(name, a0, a1, a2, a3, z0, z1, z2);     \
+    } while(0)
+
+#define AMGCL_VERIF_EVENT(name, obj, a, b, c, d)                               \
+    do {                                                                       \
+        if (amgcl::verif::current())                                           \
+            amgcl::verif::current()->event(name, obj, a, b, c, d);             \
+    } while(0)
+
+#endif
